@@ -86,7 +86,44 @@ def tlc_cmd(module, cfg, metadir, workers, extra_jvm=(), extra=()):
 COV_RE = re.compile(r"^<(\w+) line \d+, col \d+ to line \d+, col \d+ of module (\w+)>: (\d+):(\d+)")
 
 
+def _spec_hash():
+    h = hashlib.sha1()
+    for root, _, files in sorted(os.walk(SPEC)):
+        for f in sorted(files):
+            if f.endswith((".tla", ".cfg")):
+                h.update(f.encode())
+                h.update(open(os.path.join(root, f), "rb").read())
+    return h.hexdigest()[:16]
+
+
 def run_mc_models(names, workdir, tier):
+    """RLV_MC_CACHE=<dir> (development aid for bin/mutant-matrix only: the models do not depend on the crate, so
+    re-running them for every changed tree is wasted time) keeps the results of successful model runs, keyed on
+    the contents of spec/; the registered checks never set it."""
+    cache = os.environ.get("RLV_MC_CACHE")
+    if not cache:
+        return _run_mc_models(names, workdir, tier)
+    os.makedirs(cache, exist_ok=True)
+    sh = _spec_hash()
+    res, todo = {}, []
+    for n in names:
+        cp = os.path.join(cache, "%s-%s-%s.json" % (sh, n, tier))
+        if os.path.exists(cp):
+            res[n] = json.load(open(cp))
+        else:
+            todo.append(n)
+    if todo:
+        fresh = _run_mc_models(todo, workdir, tier)
+        for n, r in fresh.items():
+            if r.get("ok") and not r.get("missing_actions"):
+                tmp = os.path.join(cache, ".%s-%s-%s.%d" % (sh, n, tier, os.getpid()))
+                json.dump(r, open(tmp, "w"))
+                os.replace(tmp, os.path.join(cache, "%s-%s-%s.json" % (sh, n, tier)))
+        res.update(fresh)
+    return {n: res[n] for n in names if n in res}
+
+
+def _run_mc_models(names, workdir, tier):
     """run the named models concurrently; returns per-model stats and exported behaviours"""
     procs = []
     per = max(2, min(4, NCPU // max(1, len(names))))
@@ -459,6 +496,99 @@ def shorten(x, n=400):
     return json.loads(s) if len(s) <= n else {"truncated": s[:n] + "..."}
 
 
+def main_all(tier, seed):
+    """bin/check ALL -- development aid for bin/mutant-matrix, never registered in MANIFEST.json: the union of
+    the cases of all 20 checks is run ONCE through the crate and the trace specification, and every rejected
+    event is attributed to each property whose own check contains that case and owns that tag.  Prints
+    `ALL-RESULT {property: [tags]}`; equivalent to running the 20 checks, at a fraction of the cost."""
+    os.makedirs(WORK, exist_ok=True)
+    suffix = ""
+    if os.environ.get("RLV_REPO"):
+        suffix = "-" + hashlib.sha1(os.path.abspath(os.environ["RLV_REPO"]).encode()).hexdigest()[:10]
+    workdir = os.path.join(WORK, "ALL-%s%s" % (tier, suffix))
+    shutil.rmtree(workdir, ignore_errors=True)
+    os.makedirs(workdir)
+    try:
+        bins = build_harness()
+        mc_memo, gen_memo = {}, {}
+        table = {}                   # case key -> [case, set(props)]
+        for prop, plan in PROPS.items():
+            need = [n for n in plan["mc"] if n not in mc_memo]
+            if need:
+                mc_memo.update(run_mc_models(need, workdir, tier))
+            cs = []
+            for name in plan["mc"]:
+                r = mc_memo.get(name)
+                if r is None:
+                    continue
+                if not r["ok"] or r["missing_actions"]:
+                    raise ToolError("model %s did not pass" % name)
+                cs += catalog_cases(prop, name, r["replay"])
+            for suite in plan["gen"]:
+                if suite not in gen_memo:
+                    g = subprocess.run([bins["rel"], "gen", suite, tier, str(seed)], stdout=subprocess.PIPE, stderr=subprocess.PIPE, text=True)
+                    if g.returncode != 0:
+                        raise ToolError("gen %s failed: %s" % (suite, g.stderr[-2000:]))
+                    gen_memo[suite] = [json.loads(l) for l in g.stdout.splitlines() if l.strip()]
+                for c in gen_memo[suite]:
+                    c = dict(c)
+                    c["src"] = "gen:" + suite
+                    cs.append(c)
+            for c in cs:
+                k = json.dumps({a: b for a, b in c.items() if a not in ("id", "src")}, sort_keys=True)
+                if k in table:
+                    table[k][1].add(prop)
+                else:
+                    table[k] = [c, {prop}]
+        cases, props_of = [], []
+        for c, ps in table.values():
+            c["id"] = len(cases)
+            cases.append(c)
+            props_of.append(ps)
+        cases_path = os.path.join(workdir, "cases.ndjson")
+        with open(cases_path, "w") as f:
+            for c in cases:
+                f.write(json.dumps(c, separators=(",", ":")) + "\n")
+        log("%d distinct cases in the union of the 20 checks" % len(cases))
+        stall = 10 if tier == "quick" else 30
+        dev, _, _ = run_worker(bins["dev"], "dev", cases_path, cases, workdir, stall)
+        rel, _, _ = run_worker(bins["rel"], "rel", cases_path, cases, workdir, stall)
+        events = merge_builds(dev, rel)
+        live = [e for e in events if "died" not in e]
+        dead = [e for e in events if "died" in e]
+        fails, _, n_shards = validate(live, workdir, max(1, NCPU - 2))
+        rej, _ = validate_canonical(live, workdir, max(1, NCPU - 2))
+        by_idx = dict(fails)
+        for i in rej:
+            by_idx[i] = list(by_idx.get(i, [])) + ["trace-rejected"]
+        result = {}
+        harness_broken = []
+        for i, tags in sorted(by_idx.items()):
+            ev = live[i]
+            if any(t.startswith("harness") or t == "unknown-event" for t in tags):
+                harness_broken.append((ev, tags))
+                continue
+            for prop in props_of[ev["idx"]]:
+                for t in tags:
+                    if owns(prop, ev, t):
+                        result.setdefault(prop, set()).add(t)
+        for ev in dead:
+            tag = "outcome-" + ev["died"]
+            for prop in props_of[ev["idx"]]:
+                if owns(prop, ev, tag):
+                    result.setdefault(prop, set()).add(tag)
+        if harness_broken:
+            ev, tags = harness_broken[0]
+            raise ToolError("harness inconsistency %s on event %s" % (tags, json.dumps(shorten(ev, 1500))))
+        print("ALL-RESULT " + json.dumps({k: sorted(v) for k, v in sorted(result.items())}))
+        return 0
+    except ToolError as e:
+        print("TOOL-ERROR property=ALL %s" % e)
+        return 2
+    finally:
+        shutil.rmtree(workdir, ignore_errors=True)
+
+
 def main():
     args = sys.argv[1:]
     if not args:
@@ -488,6 +618,8 @@ def main():
         seed = int(os.environ.get("VERIF_SEED", "1"))
     except ValueError:
         seed = 1
+    if prop == "ALL":
+        return main_all(tier, seed)
     if prop not in PROPS:
         print("unknown property", prop)
         return 2
